@@ -1,6 +1,7 @@
 package x86asm
 
-// generated partition entry points (see tools/gen_c16.py)
+// partition entry points: first-byte ranges x input lengths; the VEX space (C4/C5) is
+// partitioned by its second byte
 
 func VC_C16_q_00() { vDiff(0x00, 0x0F, 16, 0) }
 func VC_C16_q_10() { vDiff(0x10, 0x1F, 16, 0) }
@@ -88,20 +89,80 @@ func VC_C16_len04_3() { vDiff(0xC0, 0xFF, 4, 0) }
 func VC_C16_len05_0() { vDiff(0x00, 0x3F, 5, 0) }
 func VC_C16_len05_1() { vDiff(0x40, 0x7F, 5, 0) }
 func VC_C16_len05_2() { vDiff(0x80, 0xBF, 5, 0) }
-func VC_C16_len05_3() { vDiff(0xC0, 0xFF, 5, 0) }
+func VC_C16_len05_3c0() { vDiff(0xC0, 0xC3, 5, 0) }
+func VC_C16_len05_3c6() { vDiff(0xC6, 0xCF, 5, 0) }
+func VC_C16_len05_3d0() { vDiff(0xD0, 0xDF, 5, 0) }
+func VC_C16_len05_3e0() { vDiff(0xE0, 0xEF, 5, 0) }
+func VC_C16_len05_3f0() { vDiff(0xF0, 0xFF, 5, 0) }
+func VC_C16_len05_vc4_0() { vDiffVex(0xC4, 0x00, 0x3F, 5, 0) }
+func VC_C16_len05_vc4_1() { vDiffVex(0xC4, 0x40, 0x7F, 5, 0) }
+func VC_C16_len05_vc4_2() { vDiffVex(0xC4, 0x80, 0xBF, 5, 0) }
+func VC_C16_len05_vc4_3() { vDiffVex(0xC4, 0xC0, 0xFF, 5, 0) }
+func VC_C16_len05_vc5_0() { vDiffVex(0xC5, 0x00, 0x3F, 5, 0) }
+func VC_C16_len05_vc5_1() { vDiffVex(0xC5, 0x40, 0x7F, 5, 0) }
+func VC_C16_len05_vc5_2() { vDiffVex(0xC5, 0x80, 0xBF, 5, 0) }
+func VC_C16_len05_vc5_3() { vDiffVex(0xC5, 0xC0, 0xFF, 5, 0) }
 func VC_C16_len06_0() { vDiff(0x00, 0x3F, 6, 0) }
 func VC_C16_len06_1() { vDiff(0x40, 0x7F, 6, 0) }
 func VC_C16_len06_2() { vDiff(0x80, 0xBF, 6, 0) }
-func VC_C16_len06_3() { vDiff(0xC0, 0xFF, 6, 0) }
+func VC_C16_len06_3c0() { vDiff(0xC0, 0xC3, 6, 0) }
+func VC_C16_len06_3c6() { vDiff(0xC6, 0xCF, 6, 0) }
+func VC_C16_len06_3d0() { vDiff(0xD0, 0xDF, 6, 0) }
+func VC_C16_len06_3e0() { vDiff(0xE0, 0xEF, 6, 0) }
+func VC_C16_len06_3f0() { vDiff(0xF0, 0xFF, 6, 0) }
+func VC_C16_len06_vc4_0() { vDiffVex(0xC4, 0x00, 0x3F, 6, 0) }
+func VC_C16_len06_vc4_1() { vDiffVex(0xC4, 0x40, 0x7F, 6, 0) }
+func VC_C16_len06_vc4_2() { vDiffVex(0xC4, 0x80, 0xBF, 6, 0) }
+func VC_C16_len06_vc4_3() { vDiffVex(0xC4, 0xC0, 0xFF, 6, 0) }
+func VC_C16_len06_vc5_0() { vDiffVex(0xC5, 0x00, 0x3F, 6, 0) }
+func VC_C16_len06_vc5_1() { vDiffVex(0xC5, 0x40, 0x7F, 6, 0) }
+func VC_C16_len06_vc5_2() { vDiffVex(0xC5, 0x80, 0xBF, 6, 0) }
+func VC_C16_len06_vc5_3() { vDiffVex(0xC5, 0xC0, 0xFF, 6, 0) }
 func VC_C16_len08_0() { vDiff(0x00, 0x3F, 8, 0) }
 func VC_C16_len08_1() { vDiff(0x40, 0x7F, 8, 0) }
 func VC_C16_len08_2() { vDiff(0x80, 0xBF, 8, 0) }
-func VC_C16_len08_3() { vDiff(0xC0, 0xFF, 8, 0) }
+func VC_C16_len08_3c0() { vDiff(0xC0, 0xC3, 8, 0) }
+func VC_C16_len08_3c6() { vDiff(0xC6, 0xCF, 8, 0) }
+func VC_C16_len08_3d0() { vDiff(0xD0, 0xDF, 8, 0) }
+func VC_C16_len08_3e0() { vDiff(0xE0, 0xEF, 8, 0) }
+func VC_C16_len08_3f0() { vDiff(0xF0, 0xFF, 8, 0) }
+func VC_C16_len08_vc4_0() { vDiffVex(0xC4, 0x00, 0x3F, 8, 0) }
+func VC_C16_len08_vc4_1() { vDiffVex(0xC4, 0x40, 0x7F, 8, 0) }
+func VC_C16_len08_vc4_2() { vDiffVex(0xC4, 0x80, 0xBF, 8, 0) }
+func VC_C16_len08_vc4_3() { vDiffVex(0xC4, 0xC0, 0xFF, 8, 0) }
+func VC_C16_len08_vc5_0() { vDiffVex(0xC5, 0x00, 0x3F, 8, 0) }
+func VC_C16_len08_vc5_1() { vDiffVex(0xC5, 0x40, 0x7F, 8, 0) }
+func VC_C16_len08_vc5_2() { vDiffVex(0xC5, 0x80, 0xBF, 8, 0) }
+func VC_C16_len08_vc5_3() { vDiffVex(0xC5, 0xC0, 0xFF, 8, 0) }
 func VC_C16_len11_0() { vDiff(0x00, 0x3F, 11, 0) }
 func VC_C16_len11_1() { vDiff(0x40, 0x7F, 11, 0) }
 func VC_C16_len11_2() { vDiff(0x80, 0xBF, 11, 0) }
-func VC_C16_len11_3() { vDiff(0xC0, 0xFF, 11, 0) }
+func VC_C16_len11_3c0() { vDiff(0xC0, 0xC3, 11, 0) }
+func VC_C16_len11_3c6() { vDiff(0xC6, 0xCF, 11, 0) }
+func VC_C16_len11_3d0() { vDiff(0xD0, 0xDF, 11, 0) }
+func VC_C16_len11_3e0() { vDiff(0xE0, 0xEF, 11, 0) }
+func VC_C16_len11_3f0() { vDiff(0xF0, 0xFF, 11, 0) }
+func VC_C16_len11_vc4_0() { vDiffVex(0xC4, 0x00, 0x3F, 11, 0) }
+func VC_C16_len11_vc4_1() { vDiffVex(0xC4, 0x40, 0x7F, 11, 0) }
+func VC_C16_len11_vc4_2() { vDiffVex(0xC4, 0x80, 0xBF, 11, 0) }
+func VC_C16_len11_vc4_3() { vDiffVex(0xC4, 0xC0, 0xFF, 11, 0) }
+func VC_C16_len11_vc5_0() { vDiffVex(0xC5, 0x00, 0x3F, 11, 0) }
+func VC_C16_len11_vc5_1() { vDiffVex(0xC5, 0x40, 0x7F, 11, 0) }
+func VC_C16_len11_vc5_2() { vDiffVex(0xC5, 0x80, 0xBF, 11, 0) }
+func VC_C16_len11_vc5_3() { vDiffVex(0xC5, 0xC0, 0xFF, 11, 0) }
 func VC_C16_len15_0() { vDiff(0x00, 0x3F, 15, 0) }
 func VC_C16_len15_1() { vDiff(0x40, 0x7F, 15, 0) }
 func VC_C16_len15_2() { vDiff(0x80, 0xBF, 15, 0) }
-func VC_C16_len15_3() { vDiff(0xC0, 0xFF, 15, 0) }
+func VC_C16_len15_3c0() { vDiff(0xC0, 0xC3, 15, 0) }
+func VC_C16_len15_3c6() { vDiff(0xC6, 0xCF, 15, 0) }
+func VC_C16_len15_3d0() { vDiff(0xD0, 0xDF, 15, 0) }
+func VC_C16_len15_3e0() { vDiff(0xE0, 0xEF, 15, 0) }
+func VC_C16_len15_3f0() { vDiff(0xF0, 0xFF, 15, 0) }
+func VC_C16_len15_vc4_0() { vDiffVex(0xC4, 0x00, 0x3F, 15, 0) }
+func VC_C16_len15_vc4_1() { vDiffVex(0xC4, 0x40, 0x7F, 15, 0) }
+func VC_C16_len15_vc4_2() { vDiffVex(0xC4, 0x80, 0xBF, 15, 0) }
+func VC_C16_len15_vc4_3() { vDiffVex(0xC4, 0xC0, 0xFF, 15, 0) }
+func VC_C16_len15_vc5_0() { vDiffVex(0xC5, 0x00, 0x3F, 15, 0) }
+func VC_C16_len15_vc5_1() { vDiffVex(0xC5, 0x40, 0x7F, 15, 0) }
+func VC_C16_len15_vc5_2() { vDiffVex(0xC5, 0x80, 0xBF, 15, 0) }
+func VC_C16_len15_vc5_3() { vDiffVex(0xC5, 0xC0, 0xFF, 15, 0) }
